@@ -191,6 +191,7 @@ MUTANTS = [
     ('strindex', STRT, 'let ind = CharIndex(i.unsigned_abs() as usize);', 'let ind = CharIndex((-i) as usize);', 'at'),
     ('strindex', STRT, 'Ok(heap.alloc(self.as_bytes()[(len_chars - ind).0] as char))', 'Ok(heap.alloc(self.as_bytes()[len_chars.0] as char))', 'at'),
     ('strindex', STRT, 'if ind > len_chars {', 'if ind >= len_chars {', 'C01.str.at.ok_iff'),
+    ('strindex', STRT, 'Ok(fast_string::len(self).0 as i32)', 'Ok(self.len() as i32)', 'C01.str.length'),
     ('strindex', STRT, 'Ok(heap.alloc(fast_string::at(self, len_chars - ind).unwrap()))', 'Ok(heap.alloc(fast_string::at(self, CharIndex(ind.0 - 1)).unwrap()))', 'C01.str.at.char'),
     ('strindex', STRT, 'Ok(heap.alloc(self.as_bytes()[(len_chars - ind).0] as char))', 'Ok(heap.alloc(self.as_bytes()[ind.0 - 1] as char))', 'C01.str.at.char'),
     ('strindex', STRT, 'match fast_string::at(self, CharIndex(i as usize)) {', 'match fast_string::at(self, CharIndex((i / 2) as usize)) {', 'C01.str.at'),
